@@ -13,3 +13,4 @@ ASSUMPTIONS = [K.A_BYTEORDER, K.A_TABLE, K.A_PRED, "index_list::IndexList get_fi
 OBLIGATIONS = [K.WIG_SUMMARY, K.BED_SUMMARY, K.SWEEPS, K.MERGE, K.TOTAL_ITEMS, K.HEADER_ARGS, K.VALS_RETURNS, K.SUMMARY_R, K.ITEMCOUNT_R] + \
     [o for o in K.WRITER_LAYOUT if o.id in ("C09-L1", "C09-L1b", "C09-L1c")] + [K.WIG_GUARDS, K.BED_GUARDS]
 OBLIGATIONS = OBLIGATIONS + [K.EVERY_VALUE]
+OBLIGATIONS = OBLIGATIONS + [K.INFO_TOOLS]
